@@ -156,7 +156,7 @@ def rle_expand(runs):
 
 # ---------------------------------------------------------------- per-character data
 def char_data(text):
-    """[(encoded byte length, columns of the encoded bytes, isascii)] for every character / byte of text."""
+    """[(encoded byte length, columns of the encoded bytes, isascii, columns the layout counts)] per character / byte."""
     from urwid import str_util
     from urwid.util import apply_target_encoding
     out = []
@@ -174,15 +174,24 @@ def char_data(text):
                 except Exception:
                     wid[i] = 1
                 i = j
+        lw = [0] * n
+        i = 0
+        while i < n:
+            j = max(str_util.move_next_char(text, i, n), i + 1)
+            try:
+                lw[i] = str_util.calc_width(text, i, j)
+            except Exception:
+                lw[i] = 1
+            i = j
         for i in range(n):
             e = 0 if text[i] in (14, 15) else 1
-            out.append((e, wid[i] if e else 0, int(text[i] < 128)))
+            out.append((e, wid[i] if e else 0, int(text[i] < 128), lw[i]))
         return out
     for ch in text:
         b = apply_target_encoding(ch)[0]
         if ch.isascii() and len(b) > 1:
             raise core.MachineryError("enc_ok premise violated: ASCII %r encodes to %d bytes" % (ch, len(b)))
-        out.append((len(b), str_util.calc_width(b, 0, len(b)) if b else 0, int(ch.isascii())))
+        out.append((len(b), str_util.calc_width(b, 0, len(b)) if b else 0, int(ch.isascii()), str_util.get_char_width(ch)))
     return out
 
 
@@ -196,7 +205,10 @@ def enc_layout(ls):
             if len(s) == 3 and isinstance(s[2], (bytes, list)):
                 raw = bytes(s[2])
                 b = apply_target_encoding(raw)[0]
-                out += [1, s[0], s[1], len(raw), len(b), str_util.calc_width(b, 0, len(b)) if b else 0]
+                rc = row_chars(raw)
+                out += [1, s[0], s[1], len(b), len(rc)]
+                for bl_, wd_ in rc:
+                    out += [bl_, wd_]
             elif len(s) == 3:
                 out += [0, s[0], s[1], s[2]]
             else:
@@ -244,6 +256,9 @@ def cell_attrs(attrs, bs):
         out += [(attrs[i] if same else "split")] * w
         i = j
     return out
+
+
+OFFSET0 = " at text offset 0"
 
 
 def row_chars(bs):
@@ -460,31 +475,32 @@ class C17(core.Check):
     level_text = (
         "Proved in Coq for ALL inputs of the model, no size bound: markup_innermost (every markup tree: the flattened text "
         "is the concatenation of the strings and every character carries the attribute of its innermost tag; run lengths "
-        "sum to the text length); layout_keeps_attr_full (every str or bytes text, attribute list and multi-line layout of "
-        "well-formed segments: every byte of every displayed character carries that character's attribute, inserted "
-        "text/clipping pads take the attribute at their offset, alignment padding and canvas fill carry None, and no "
-        "zero-length run is left in a row) - the only premise is the data condition enc_ok (encoded lengths >= 0; a byte / an "
-        "ASCII character becomes at most one byte), nothing is assumed of non-ASCII characters; clip_keeps_attr / "
-        "clip_columns_unchanged (every rendered row of 1- and 2-column characters and every clip window, as applied by "
-        "TextCanvas.content(trim_left, cols) for pad_trim_left_right / Overlay / Padding / Columns clipping: visible "
-        "characters keep their attribute and the blank replacing half of a double-width character carries that "
-        "character's attribute; per column the clipped row equals columns sc..ec-1 of the unclipped one); fill_attr_compose / "
+        "sum to the text length); layout_keeps_attr_full (every str or bytes text, attribute list and multi-line layout: "
+        "after apply_text_layout's own trim_line every byte of every displayed character carries that character's "
+        "attribute, inserted text/clipping pads take the attribute at their offset, alignment padding and canvas fill carry "
+        "None, no zero-length run is left) - premises: the data condition enc_ok and that trim_line yields well-formed "
+        "segments, which is itself proved for every line that fits (trim_line_identity_when_fits, any characters) and for "
+        "every line of truthful segments over 1- and 2-column characters, overlong or negatively padded "
+        "(trim_line_keeps_wellformed, layout_keeps_attr_through_trim); subseg_shows_window (LayoutSegment.subseg of a "
+        "text segment shows column by column exactly the window, the blank for half of a double-width character carrying "
+        "that character's attribute, except for the character at text offset 0); layout_cells (the per-COLUMN statement: "
+        "every row is the bytes of a sequence of displayed characters, each column of a character - both columns of a "
+        "double-width one - carries that character's attribute, padding and fill columns carry None); clip_keeps_attr / "
+        "clip_columns_unchanged (clipping of rendered rows by TextCanvas.content(trim_left, cols)); fill_attr_compose / "
         "attrmap_replaces_exactly_listed / attrmap_focus_choice / nested_maps_compose (every widget tree of AttrMap, Pile, "
-        "Columns over leaves: each view's final map equals the maps on its path applied inner to outer, each chosen by the "
-        "focus flag that reaches it); sgr_roundtrip (every AttrSpec with in-range colour numbers, every colour depth, "
-        "bright-is-bold and bright-is-blink on/off: the independent SGR decoder reads back exactly the specified fg, bg "
-        "and flags, bright colours through bold/blink where the terminal needs that); palette_resolves_full (every history "
-        "of register_palette_entry / aliases / set_terminal_properties: every name in the palette resolves to the escape "
-        "of its entry for the active depth) and palette_name_to_terminal (chained with the round trip); "
-        "undefined_name_defaults.  Nothing is _partial or refuted any more (the three defects this check found were "
-        "repaired: 0eea584, b5288ea, c165cd7; their inputs are regression cases in corpus/C17).  "
+        "Columns over leaves); sgr_roundtrip (every AttrSpec with in-range colour numbers, every colour depth, "
+        "bright-is-bold and bright-is-blink on/off); palette_resolves_full and palette_name_to_terminal (every history "
+        "of register_palette_entry / aliases / set_terminal_properties); undefined_name_defaults.  REFUTED with a witness "
+        "replayed on the implementation (proposed known finding): subseg_shows_window_full - the blank for the cut "
+        "double-width character at text offset 0 carries None ('elif s.offs:' reads offset 0 as no offset).  "
         "Correspondence/oracle only: that the hand model matches the Python code (exact extracted-model comparison on "
-        "every case), widths/encodings of real characters, Pile/Columns geometry.")
+        "every case), widths/encodings of real characters, zero-width characters inside segments that are cut, "
+        "Pile/Columns geometry.")
     level_note = (
         "Trusted: Coq kernel, ExtrOcamlBasic extraction + OCaml driver, the hand-written model (tied by the correspondence, "
         "not proved against Python), the Python oracle and its SGR decoder.  Inputs taken as data from urwid itself: the "
-        "text layout (C03), AttrSpec colour parsing (C18), per-character encoded length and width (C11).  Assumes TERM is "
-        "not fbterm; lines of a layout fit in maxcol (trim_line is then the identity); stateless target encodings.")
+        "untrimmed text layout (C03), AttrSpec colour parsing (C18), per-character encoded length, displayed width and "
+        "layout width (C11).  Assumes TERM is not fbterm; stateless ASCII-compatible target encodings.")
     rule = ("cases = markup trees (nested tags incl. None, empty strings, str/bytes, wide, zero-width, multi-byte, DEC "
             "line-drawing and SO/SI characters) through decompose_tagmarkup and Text.render for every wrap x align x "
             "encoding; random well-formed and malformed layouts through apply_text_layout; rendered Text rows rich in "
@@ -506,13 +522,18 @@ class C17(core.Check):
     assumptions = [
         "attribute names are compared with ==; the universe used has pairwise different names",
         "TERM is not fbterm (its private escape format is not SGR)",
-        "every layout line fits in maxcol (true of StandardTextLayout); custom layouts relying on trim_line are not modelled",
+        "trim_line / LayoutSegment.subseg are modelled; a text segment that is cut must lie inside the text (else the model "
+        "reports the case as outside its domain); an insert that is cut holds no SO/SI",
+        "malformed markup (a list holding an empty list after text -> IndexError, mixed str/bytes -> TypeError, non-markup "
+        "objects -> TagMarkupException) is outside the property, which speaks of the displayed characters of valid markup: "
+        "the model mirrors the exceptions (correspondence) and the oracle does not judge them (counted as err:markup:*)",
         "target encodings are stateless and ASCII-compatible (utf-8, 8-bit, EUC): the encoded length of a string is the "
         "sum over its characters and an ASCII character / a byte is at most one byte (enc_ok, checked on every case)",
         "on a bright-is-bold terminal a bright basic foreground is conveyed as bold + colour-8 (the terminal's own convention)",
         "the attribute of an ellipsis inserted by the text layout is not constrained by the property (not judged); the blank "
-        "replacing half of a double-width character must carry that character's attribute (judged for canvas clipping; a "
-        "zero-width character attached to the cut character with a different attribute makes the cell 'any')",
+        "replacing half of a double-width character must carry that character's attribute (judged for layout clipping and "
+        "for canvas clipping; a zero-width character attached to the cut character with a different attribute makes the "
+        "cell 'any')",
         "clip theorem: row characters are 1 or 2 columns wide (zero-width characters are covered by correspondence/oracle only)",
     ]
 
@@ -845,29 +866,24 @@ class C17(core.Check):
                 text = bytes(codes) if isb else "".join(chr(c) for c in codes)
                 try:
                     ls = urwid.text_layout.default_layout.layout(text, case["w"], case["align"], case["wrap"])
-                    ls = trimmed(ls, text, case["w"])
                 except Exception:
                     return None
                 cd = char_data(text)
                 out = [7, case["w"], len(cd)]
-                for e, w, a in cd:
-                    out += [e, w, a]
+                for e, w, a, lw in cd:
+                    out += [e, w, a, lw]
                 return out + enc_markup(case["m"]) + enc_layout(ls)
         if k == "layout":
             with Enc(case["enc"]):
                 text = bytes(case["text"]) if case["isb"] else "".join(chr(c) for c in case["text"])
                 cd = char_data(text)
                 out = [2, case["w"], int(bool(case["isb"])), len(cd)]
-                for e, w, a in cd:
-                    out += [e, w, a]
+                for e, w, a, lw in cd:
+                    out += [e, w, a, lw]
                 out.append(len(case["attr"]))
                 for a, n in case["attr"]:
                     out += oz(a) + [n]
-                try:
-                    ls = trimmed(layout_py(case["ls"]), text, case["w"])
-                except Exception:
-                    return None
-                return out + enc_layout(ls)
+                return out + enc_layout(layout_py(case["ls"]))
         if k == "clip":
             import urwid
             with Enc(case["enc"]):
@@ -1143,7 +1159,10 @@ class C17(core.Check):
         if k == "markup":
             return self.oracle_markup(case, res)
         if k in ("text", "layout") and st is not None:
-            return self.oracle_rows(case, st)
+            msgs = self.oracle_rows(case, st)
+            if not msgs and k == "text":
+                msgs = self.oracle_window(case, st)
+            return msgs
         if k == "clip" and st is not None:
             return self.oracle_clip(case, res, st)
         if k == "maps" and st is not None:
@@ -1227,7 +1246,10 @@ class C17(core.Check):
                         exp += [(None, "alignment padding")] * max(0, s[0])
                         ebytes += b" " * max(0, s[0])
                     else:
-                        exp += [("any", "clip pad")] * max(0, s[0])
+                        # a blank standing for (half of) the character at this offset carries its attribute
+                        e_ = tags[s[1]] if 0 <= s[1] < len(tags) else "any"
+                        what_ = "blank for the cut character %d%s" % (s[1], OFFSET0 if s[1] == 0 else "")
+                        exp += [(e_, what_)] * max(0, s[0])
                         ebytes += b" " * max(0, s[0])
                 if bs[:len(ebytes)] != ebytes or bs[len(ebytes):].strip(b" "):
                     st["short_rows"] += 1
@@ -1252,6 +1274,73 @@ class C17(core.Check):
                 if msgs:
                     break
         return msgs
+
+    def oracle_window(self, case, st):
+        """Independent of trim_line: a layout line is a strip of columns - per character of a text segment as many
+        columns as it is wide, all with its tag; alignment padding None - of which the canvas shows the window
+        that starts after a negative alignment pad; the rest of the row is fill (None).  Each cell of the row
+        carries the attribute of the character occupying that column (a half-shown double-width character
+        included)."""
+        from urwid import str_util
+        if case["enc"] != "utf-8":
+            return []            # layout columns and displayed columns differ under lossy encodings
+        text = st["text"]
+        if isinstance(text, bytes):
+            return []
+        tags = self.char_tags(case)
+        if tags is None:
+            return []
+        w = case["w"]
+        with Enc(case["enc"]):
+            for y, (line, (attrs, bs)) in enumerate(zip(st["ls"], st["rows"])):
+                virt, neg, ok = [], 0, True          # per column: (attribute or "any", character index or None)
+                last = None                          # (first column, index) of the last character laid out
+                for idx, s_ in enumerate(line):
+                    if len(s_) == 2 and s_[1] is None:
+                        if s_[0] < 0:
+                            if idx:
+                                ok = False
+                                break
+                            neg = -s_[0]
+                        else:
+                            virt += [(None, None)] * s_[0]
+                    elif len(s_) == 2:
+                        a_ = tags[s_[1]] if 0 <= s_[1] < len(tags) else "any"
+                        virt += [(a_, s_[1])] * s_[0]
+                    elif isinstance(s_[2], int):
+                        cols = 0
+                        for i in range(s_[1], s_[2]):
+                            cw = str_util.get_char_width(text[i])
+                            if cw == 0:
+                                if last is not None and virt and virt[last[0]][0] != tags[i]:
+                                    for q in range(last[0], len(virt)):
+                                        virt[q] = ("any", virt[q][1])
+                                continue
+                            last = (len(virt), i)
+                            virt += [(tags[i], i)] * cw
+                            cols += cw
+                        if cols != s_[0]:
+                            ok = False
+                            break
+                    else:
+                        virt += [("any", None)] * s_[0]
+                if not ok:
+                    continue
+                vis = virt[neg:neg + w]
+                vis += [(None, None)] * (w - len(vis))
+                got = self.column_attrs(attrs, bs)
+                if got is None or len(got) != w:
+                    continue
+                for x, ((e, ci), g) in enumerate(zip(vis, got)):
+                    if e == "any" or g in ("any", "split") or g == e:
+                        continue
+                    half = ci is not None and (
+                        (x == 0 and neg > 0 and virt[neg - 1][1] == ci) or
+                        (x == w - 1 and neg + w < len(virt) and virt[neg + w][1] == ci))
+                    return ["window: row %d column %d%s carries attribute %r, the character there has %r"
+                            % (y, x, (" (the visible half of the double-width character %d%s)"
+                                      % (ci, OFFSET0 if ci == 0 else "")) if half else "", g, e)]
+        return []
 
     def oracle_clip(self, case, res, st):
         """Clipping shows the columns [c0, c1) of the row.  Every visible cell carries the attribute of the
@@ -1517,7 +1606,8 @@ class C17(core.Check):
         return True
 
     def signature(self, case, msg):
-        return case["kind"] + ":" + re.sub(r"\d+", "N", msg)[:60]
+        # the offset-0 class is a separate signature: shrinking must not walk a violation into (or out of) it
+        return case["kind"] + ":" + re.sub(r"\d+", "N", msg)[:60] + ("#offset0" if OFFSET0 + ")" in msg else "")
 
     def distribution(self, case, res, dist):
         def inc(k):
@@ -1641,6 +1731,9 @@ class C17(core.Check):
             ls = []
             for _ in range(rng.choice([1, 2, 3])):
                 line, used = [], 0
+                overlong = rng.random() < 0.35          # a line that apply_text_layout has to trim itself
+                if overlong and rng.random() < 0.7:
+                    line.append([-rng.choice([1, 1, 2, 3, 5]), None])
                 for _ in range(rng.choice([0, 1, 2, 3])):
                     kind = rng.random()
                     if kind < 0.55 and len(bounds) > 1:
@@ -1648,14 +1741,15 @@ class C17(core.Check):
                         b = rng.randrange(a + 1, len(bounds))
                         o, e = bounds[a], bounds[b]
                         sc = str_util.calc_width(text, o, e)
-                        if sc <= 0 or used + sc > w:
+                        if sc <= 0 or (used + sc > w and not overlong):
                             continue
                         line.append([sc, o, e])
                         used += sc
                     elif kind < 0.7:
-                        ins = rng.choice([[46], [46, 46], [0xE2, 0x80, 0xA6] if enc == "utf-8" else [46]])
+                        ins = rng.choice([[46], [46, 46], [46, 46, 46], [0xE2, 0x80, 0xA6] if enc == "utf-8" else [46],
+                                          [0xE4, 0xB8, 0x96, 46] if enc == "utf-8" else [46, 46]])
                         sc = str_util.calc_width(bytes(ins), 0, len(ins))
-                        if used + sc > w:
+                        if used + sc > w and not overlong:
                             continue
                         line.append([sc, rng.randrange(0, n + 1), ins])
                         used += sc
